@@ -17,6 +17,7 @@ You have your OWN scratch git worktree of the repository at {wt} (detached HEAD)
 How to run things (the sandbox has no network):
 - Python: /venv/bin/python ; ALWAYS prefix commands with PYTHONPATH={wt}/src so that your worktree's sources are imported (check with: PYTHONPATH={wt}/src /venv/bin/python -c "import bldfm; print(bldfm.__file__)").
 - The existing test suite: cd {wt} && PYTHONPATH={wt}/src /venv/bin/python -m pytest -q -p no:cacheprovider --timeout=900 2>/dev/null | tail -5   (takes about 1-2 minutes; on the unmodified tree it reports 135 passed, 4 skipped). Every bldfm process prints a harmless traceback about "can't create new thread at interpreter shutdown" at exit - ignore it.
+- Do NOT use `git stash` (the stash is shared between all worktrees of this repository and other people are working in sibling worktrees); keep work in progress as diff files instead.
 - Run scripts from a scratch directory such as {wt}_scratch (the library writes fftw_wisdom.pkl, .bldfm_cache/, logs/ into the current directory).
 
 THE PROPERTY that is supposed to hold for this code base:
